@@ -455,6 +455,19 @@ func ruleChurnFlow(c *Ctx) {
 							cur, par = px, parents[px]
 							continue
 						}
+						// min(cap, len(queue)): the bound of the queue itself, on its way to the reslice
+						if fid, ok := px.Fun.(*ast.Ident); ok && fid.Name == "min" && len(px.Args) == 2 {
+							if _, isB := info.ObjectOf(fid).(*types.Builtin); isB {
+								other := px.Args[0]
+								if ast.Unparen(px.Args[0]) == cur || px.Args[0] == cur {
+									other = px.Args[1]
+								}
+								if fromQueue(other) {
+									cur, par = px, parents[px]
+									continue
+								}
+							}
+						}
 					}
 					break
 				}
